@@ -16,6 +16,10 @@ def classify(case_info):
     return None
 
 def gen_case(rng):
+    if rng.random() < 0.15:
+        from .. import trained
+        return {'train': trained.gen_train_case(rng, max_len_choices=(21,), coverages=(1.0, 0.6)), 'spec': {'base': ['(trained)'], 'omen': None},
+                'flags': {'skip_brute': True, 'all_lower': rng.random() < 0.3, 'folder': 'Grammar'}}
     labels = rng.sample(['A1', 'A2', 'A3', 'A4', 'A5'], rng.randint(1, 3)) + rng.sample(['D1', 'D2', 'O1', 'O2', 'K4', 'Y1', 'X1'], rng.randint(0, 3))
     spec = rulesets.gen_spec(rng, labels=labels, max_groups=rng.choice([1, 2, 3]), max_per_group=4, with_m=rng.random() < 0.35,
                              pool=rng.choice(['counts', 'dyadic', 'equal', 'decimal']))
@@ -40,7 +44,9 @@ def gen_case(rng):
     return {'spec': spec, 'flags': flags}
 
 def check_case(run, case):
-    name, path = gstream.materialise(case['spec'], 'c04')
+    name, path = gstream.materialise_case(run, case, 'c04')
+    if name is None:
+        return
     try:
         flags = gstream.flags_of(case)
         disk = oracles.Disk(path)
